@@ -23,7 +23,8 @@ def floors(tier):
     return {'distinct_nontrivial': 1000 if tier == 'quick' else 80000, 'inverse_returned': 700, 'two_sided_checked': 700,
             'singular_operands_seen': 40, 'zerodivision_checked_against_oracle': 40, 'division_checked': 300,
             'number_over_x_checked': 150, 'negative_power_checked': 150, 'd5_closed_form_cases': 40, 'd6plus_iterative_cases': 100, 'd6plus_degenerate_r2_cases': 60,
-            'padded_or_permuted_layouts': 300, 'empty_dividends': 60, 'single_grade_non_blade_operands': 40, 'inverse_after_in_place_update': 100}
+            'padded_or_permuted_layouts': 300, 'empty_dividends': 60, 'single_grade_non_blade_operands': 40, 'inverse_after_in_place_update': 100,
+            'wrapper_order_sequence_inverses': 60, 'rich_mixed_grade_d7_cases': 2}
 
 
 def plan(tier, seed):
@@ -56,6 +57,12 @@ def plan(tier, seed):
         # the symbolic zero filter switched off: the closed forms (d <= 5) and the iterative scheme (d >= 6) see vanishing coefficients as stored zeros
         for c in ({'p': 3, 'q': 0, 'r': 0}, {'p': 3, 'q': 0, 'r': 1}, {'p': 6, 'q': 0, 'r': 0}, {'p': 4, 'q': 1, 'r': 1}):
             U += u(dict(c, opts={'simp_func': 'none'}), 12 if gen.cfg_dim(c) >= 6 else 30, 3)
+        # a wrapper (JIT-decorator stand-in) with operands stored in several key orders
+        for c, w in (({'p': 2, 'q': 0, 'r': 0}, 'wraps'), ({'p': 1, 'q': 3, 'r': 0}, 'identity'), ({'p': 3, 'q': 0, 'r': 0}, 'wraps'), ({'p': 2, 'q': 0, 'r': 1}, 'identity')):
+            U += u(dict(c, opts={'wrapper': w}), 25, 4)
+        # one rich mixed-grade element per 7-D algebra (about 10 s each)
+        for c in ({'p': 7, 'q': 0, 'r': 0}, {'p': 4, 'q': 3, 'r': 0}, {'p': 6, 'q': 1, 'r': 0}, {'p': 5, 'q': 1, 'r': 1}):
+            U += [dict(cfg=c, count=1, cap=4, dense=False, rich=True)]
         nshards = 16
     else:
         for c in gen.sig_orderings(1, 2):
@@ -78,6 +85,10 @@ def plan(tier, seed):
             U += u(c, 60, 4)
         for c in rng.sample(gen.pqr_all(3, 5), 8) + rng.sample(gen.pqr_all(6, 6), 4):
             U += u(dict(c, opts={'simp_func': 'none'}), 40 if gen.cfg_dim(c) >= 6 else 120, 3)
+        for c, w in zip(rng.sample(gen.sig_orderings(2, 3), 12), ('wraps', 'identity') * 6):
+            U += u(dict(c, opts={'wrapper': w}), 150, 4)
+        for c in gen.pqr_all(7, 7)[::3]:
+            U += [dict(cfg=c, count=2, cap=4, dense=False, rich=True)]
         nshards = 64
     rng.shuffle(U)
     return [{'units': part} for part in gen.split(U, nshards)]
@@ -107,6 +118,12 @@ def gen_operand(ctx, alg, canon, unit):
     d = alg.d
     cap = unit['cap']
     layout = 'canonical'
+    if unit.get('rich'):
+        # d >= 7, odd: floor(d/2) commuting bivectors plus the remaining vector - an element whose minimal polynomial needs the full
+        # number of powers of the iterative scheme (fewer blades satisfy lower-degree polynomials; more are unaffordable)
+        keys = tuple(0b11 << (2 * i) for i in range(d // 2)) + ((1 << (d - 1),) if d % 2 else ())
+        vals = {k: Fr(gen.small_int(rng, 1, 5) * rng.choice((1, -1)), rng.choice((1, 1, 2))) for k in keys}
+        return keys, vals, 'rich-mixed'
     if d >= 4 and rng.random() < 0.15:
         # a homogeneous operand that is not a blade (e.g. e12 + e34): 2-3 blades of one grade
         g = rng.choice([g_ for g_ in range(1, d) if len([k for k in canon if bin(k).count('1') == g_]) >= 2])
@@ -146,7 +163,7 @@ def gen_operand(ctx, alg, canon, unit):
 def one_operand(ctx, alg, iso, cfg, name, canon, unit):
     R = iso.ref
     d = alg.d
-    to = CASE_TIMEOUT[ctx.tier]
+    to = CASE_TIMEOUT[ctx.tier] if not unit.get('rich') else 120
     keys, vals, layout = gen_operand(ctx, alg, canon, unit)
     cid = [name, list(keys), [str(vals[k]) for k in keys]]
     if not ctx.want(cid):
@@ -230,8 +247,28 @@ def one_operand(ctx, alg, iso, cfg, name, canon, unit):
         ctx.violation(kind, cid, op='inv', d=d, singular_per_oracle=sing, high_precision_recheck=hp, max_abs_error=err,
                       inverse=show_elem(mv_dict(xi)), products=bad, **wit)
         return
-    # history on one object: invert, update a coefficient in place, invert again - the second inverse belongs to the new coefficients
     rng = ctx.rng
+    if unit.get('rich'):
+        ctx.count('rich_mixed_grade_d7_cases')
+        return
+    if cfg.get('opts', {}).get('wrapper') and len(keys) >= 2:
+        # a wrapper is configured: the same element stored in another key order is inverted next, then the first object again; every
+        # returned inverse is judged with the reference product (kingdon's own product would go through the same wrapper)
+        kp = gen.permuted(rng, tuple(keys))
+        x2 = ops.value_mv(alg, kp, vals)
+        for label, obj in (('other key order', x2), ('first key order again', x)):
+            stw, xw = ctx.guarded(to, lambda: obj.inv())
+            if stw != 'ok':
+                if stw == 'exc':
+                    ctx.violation('x.inv() raises for another storage order of an operand it inverted before', cid + ['order', label], op='inv', d=d,
+                                  error=repr(xw)[:120], order=list(kp), **wit)
+                continue
+            ctx.count('wrapper_order_sequence_inverses')
+            XW = iso.mv_to_ref(xw)
+            if not isone(R.gp(X, XW)) or not isone(R.gp(XW, X)):
+                ctx.violation('inverse is not a two-sided inverse', cid + ['order', label], op='inv', d=d, step=label, order=list(kp),
+                              inverse=show_elem(mv_dict(xw)), expected=show_elem(XI), **wit)
+    # history on one object: invert, update a coefficient in place, invert again - the second inverse belongs to the new coefficients
     if rng.random() < 0.2 and isinstance(x.values(), list):
         j = rng.randrange(len(keys))
         newv = vals[keys[j]] + rng.choice((1, 2, -1))
